@@ -18,6 +18,25 @@ CLAIMS = {
    design='3/C08', note=TB),
 }
 
+CLAIMS['C15'] = dict(
+   technique='Lean 4 proof (decision logic stated outright + counter invariant by induction) + generated-table obligation + correspondence + direct search',
+   text='C15_schedule characterises _call_jump exactly (iff), C15_counter proves the private counter equals the chain iteration '
+        'over every operation sequence (clear, growth, swaps, resets, loads of counter-carrying states), C15_schedule_iterations(_adaptive) '
+        'give the readable form, C15_nonjump_* show that a proposal that is not due keeps its parameters, contributes nothing to the '
+        'Hastings term, is not adapted while its counter advances, C15_others_unaffected, C15_clear_invariant, C15_resume_invariant; '
+        'EpsieProps/C15Table.lean re-proves by decide on tables regenerated from the source on every run that every class passes '
+        'jump_interval through. Tied to the code by the plumbing correspondence (jump / density-query oracle entries appear exactly when '
+        'the model says the proposal is due) and searched directly on the real code against the schedule stated in the property.',
+   design='3/C15', note=TB)
+CLAIMS['C18'] = dict(
+   technique='Lean 4 proof (invariant/counting by induction over operation sequences) + correspondence (ordered oracle queue) + direct search',
+   text='C18_start_one_call, C18_step_one_call, C18_others_no_call, C18_sweep_no_call, C18_iteration_calls and C18_run_count prove over the '
+        'model that exactly one evaluation per level is made by start and by every iteration (plus the documented virtual evaluations of '
+        'componentwise scaling, C18_no_extras says when there are none), that sweeps, clears, growth, loads and resets make none, and '
+        'C18_recorded_from_that_call that accepted records carry that evaluation\'s outputs. The correspondence feeds the model one oracle '
+        'entry per real evaluation in real order (missing/extra evaluation = DESYNC); a counting and stateful model is run on real samplers.',
+   design='3/C18', note=TB)
+
 NOT_YET = {}
 
 def main():
